@@ -242,6 +242,8 @@ for fname in ('varint_decode', 'decompress_ids'):
 # u64 needs), low seven bits arbitrary, followed by one arbitrary byte
 RUNS = (11, 40, 70) if T == 'quick' else (11, 20, 37, 40, 64, 70, 130, 260)
 ck.declare('decoder_total_long_runs', f'byte strings of {list(RUNS)} continuation bytes (low 7 bits arbitrary) plus one arbitrary byte', 'varint_decode / decompress_ids do not panic and return at most one value per input byte')
+_unroll0 = ex.unroll
+ex.unroll = max(ex.unroll, max(RUNS) + 8)       # the decoder loops once per input byte
 for fname in ('varint_decode', 'decompress_ids'):
     for n in RUNS:
         bs = u64list('c', n + 1, 8)
@@ -256,6 +258,7 @@ for fname in ('varint_decode', 'decompress_ids'):
                 ck.require(ex, 'decoder_total_long_runs', r.pc, None, z3.BoolVal(False), lambda m, fname=fname, bs=bs, r=r: {'fn': fname, 'bytes': [mval(m, b.v) for b in bs], 'panic': r.msg}, lambda m, w: 'decoder-panic')
             elif r.status == 'return':
                 ck.require(ex, 'decoder_total_long_runs', r.pc, None, z3.BoolVal(len(r.retval.elems) <= n + 1), wit, lambda m, w: 'decoder-len')
+ex.unroll = _unroll0
 for v in ck.violations:
     if v['obligation'] in ('decoder_total', 'decoder_total_long_runs'):
         rep = Replay.call({'op': v['witness']['fn'], 'bytes': v['witness']['bytes']})
